@@ -1041,9 +1041,9 @@ MAGIC_DECL = {"ident": "syn::Ident", "vis": "syn::Visibility", "generics": "syn:
               "discriminant": "Option<syn::Expr>", "fields": "darling::ast::Fields<FF>", "bounds": "Vec<syn::TypeParamBound>", "default": "Option<syn::Type>"}
 
 
-def elem_desc(name, trait, fields, attributes, forward=None, magic=(), supports=None, **kw):
+def elem_desc(name, trait, fields, attributes, forward=None, magic=(), supports=None, attrs_with=False, **kw):
     d = struct_desc(name, fields, trait=trait, **kw)
-    d.update({"kind": "elem", "attributes": list(attributes), "forward": forward, "magic": list(magic), "supports": supports})
+    d.update({"kind": "elem", "attributes": list(attributes), "forward": forward, "magic": list(magic), "supports": supports, "attrs_with": attrs_with})
     return d
 
 
@@ -1065,9 +1065,13 @@ def elem_declaration(d):
     elif extra:
         base = f"#[darling({', '.join(extra)})] " + base
     # magic fields are declared with their real syn types; opt-in generic params for `data`
-    mf = " ".join(f"{k}: {'Option<syn::Ident>' if (k == 'ident' and d['trait'] == 'FromField') else MAGIC_DECL[k]}," for k in d["magic"])
+    def mdecl(k):
+        if k == "attrs" and d.get("attrs_with"):
+            return f"#[darling(with = conv_attrs_{d['name']})] attrs: TA,"
+        return f"{k}: {'Option<syn::Ident>' if (k == 'ident' and d['trait'] == 'FromField') else MAGIC_DECL[k]},"
+    mf = " ".join(mdecl(k) for k in d["magic"])
     base = base.replace(" { ", " { " + mf + " ", 1)
-    xg = ["VV", "FF"] if "data" in d["magic"] else (["FF"] if "fields" in d["magic"] else [])
+    xg = (["VV", "FF"] if "data" in d["magic"] else (["FF"] if "fields" in d["magic"] else [])) + (["TA"] if d.get("attrs_with") else [])
     if xg:
         g = ", ".join(xg)
         base = re.sub(r"struct (\w+)<", rf"struct \1<{g}, ", base, count=1) if re.search(r"struct \w+<", base) else re.sub(r"struct (\w+) ", rf"struct \1<{g}> ", base, count=1)
@@ -1084,13 +1088,14 @@ def elem_template(d, gen_id, mode="full"):
     if isinstance(fwd, list) and not fwd:
         fwd = None
     will_walk = bool(sel) or fwd is not None
-    magic = [(k, E["magic"][k][0]) for k in d["magic"]]
+    aw = bool(d.get("attrs_with")) and has_attrs_field
+    magic = [(k, "TA" if (k == "attrs" and aw) else E["magic"][k][0]) for k in d["magic"]]
     start = f"awalk_{n}::<TPS>(__s0@.take(__i0 - 1)).st"
     extra_inv = (f" && __fwd_attrs@ =~= awalk_{n}::<TPS>(__s0@.take(__i0 - 1)).fwd" if has_attrs_field else "")
     ctx = {"loop": 1, "match": 1 if will_walk else 0, "closure": 0, "occ_for": 0, "occ_alts": 0, "elem": True, "magic": magic, "start": start, "extra_inv": extra_inv}
     text, D, info = struct_template(dict(d, kind="struct"), gen_id, mode="full", ctx=ctx)
     tps = info["tps"]
-    xg = ["VV", "FF"] if "data" in d["magic"] else (["FF"] if "fields" in d["magic"] else [])
+    xg = (["VV", "FF"] if "data" in d["magic"] else (["FF"] if "fields" in d["magic"] else [])) + (["TA"] if aw else [])
     xgs = ", ".join(xg)
     data_g = (xgs + ", ") if xg else ""
     rej = " ".join(f"#[verifier::reject_recursive_types({x})]" for x in xg)
@@ -1123,6 +1128,9 @@ def elem_template(d, gen_id, mode="full"):
         fwd_cond = " || ".join(f"attr_name(a) == {lit(x)}@" for x in fwd)
     else:
         fwd_cond = "false"
+    if aw:
+        w(f"pub uninterp spec fn conv_attrs_{n}_spec<TA>(v: Seq<Attribute>) -> Result<TA>;")
+        w(f"#[verifier::external_body] pub fn conv_attrs_{n}<TA>(v: Vec<Attribute>) -> (r: Result<TA>) ensures r == conv_attrs_{n}_spec::<TA>(v@) {{ unimplemented!() }}")
     # C08: the attribute walk - selected attributes are one list, forwarded ones are kept in order, the rest is inert
     w(f"pub struct W{n}<{tps}> {{ pub st: St{n}<{tps}>, pub fwd: Seq<Attribute> }}")
     w(f"pub open spec fn astep_{n}<{gb}>(w: W{n}<{tps}>, a: Attribute) -> W{n}<{tps}> {{")
@@ -1142,16 +1150,22 @@ def elem_template(d, gen_id, mode="full"):
     else:
         # neither attributes(..) nor an effective forward_attrs: no attribute can have any effect (C08)
         w(f"    let w = W{n} {{ st: init_{n}::<{tps}>(), fwd: Seq::<Attribute>::empty() }};")
+    cur = "w.st"
+    if aw:
+        # `with = f` on the `attrs` magic field: the forwarded attributes go through the user's converter right after the walk; its failure is
+        # one more accumulated error, its value is what the field holds
+        w(f"    let st_a = match conv_attrs_{n}_spec::<TA>(w.fwd) {{ Ok(_) => {cur}, Err(e) => St{n} {{ errs: {cur}.errs.push(e), ..{cur} }} }};")
+        cur = "st_a"
     if d.get("supports") is not None:
         # C18 (FromVariant): the variant's field list is checked against the SET of declared words, after the attribute walk and before
         # the presence checks; a rejected shape is one more error, never a short-circuit
         wset = "Set::<Shape>::empty()" + "".join(f".insert(Shape::{SHAPE_VARIANT[x]})" for x in d["supports"])
-        w(f"    let st1 = match variant_shape_verdict({wset}, el.fields) {{ Ok(_) => w.st, Err(e) => St{n} {{ errs: w.st.errs.push(e), ..w.st }} }};")
+        w(f"    let st1 = match variant_shape_verdict({wset}, el.fields) {{ Ok(_) => {cur}, Err(e) => St{n} {{ errs: {cur}.errs.push(e), ..{cur} }} }};")
         w(f"    let s = chk_{n}::<{tps}>(st1);")
     else:
-        w(f"    let s = chk_{n}::<{tps}>(w.st);")
+        w(f"    let s = chk_{n}::<{tps}>({cur});")
     w("    if s.errs.len() > 0 { Err(e_multiple(s.errs)) } else {")
-    mg_inits = ", ".join(f"{k}: {E['magic'][k][1]}" for k in d["magic"])
+    mg_inits = ", ".join(f"{k}: " + (f"conv_attrs_{n}_spec::<TA>(w.fwd)->Ok_0" if (k == "attrs" and aw) else E['magic'][k][1]) for k in d["magic"])
     mg = f"Magic{n}" + (f"::<{xgs}>" if data_g else "")
     valcall = f"val_{n}::<{full_tps}>(s" + (f", {mg} {{ {mg_inits} }}" if magic else "") + ")"
     cp = info["cp"].replace("(v)", f"({valcall})") if info["cp"] != "Ok(v)" else f"Ok({valcall})"
@@ -1224,6 +1238,8 @@ def quick_elems():
         elem_desc("D8", "FromVariant", [f("a")], ["foo"], forward=["doc"], magic=["ident", "discriminant", "fields", "attrs"]),
         elem_desc("D12", "FromVariant", [f("a"), f("b", default="trait")], ["foo"], magic=["ident", "fields"], supports=["unit", "newtype"]),
         elem_desc("D13", "FromVariant", [], ["foo"], magic=["ident"], supports=["named"]),
+        elem_desc("D14", "FromField", [f("a"), f("b", default="trait")], ["foo"], forward=["doc", "keep"], magic=["ident", "attrs"], attrs_with=True),
+        elem_desc("D15", "FromDeriveInput", [f("z", skip=True)], [], forward="all", magic=["attrs", "ident"], attrs_with=True),
         elem_desc("D9", "FromTypeParam", [f("a", default="trait")], ["foo", "bar"], forward="all", magic=["ident", "bounds", "default", "attrs"]),
         elem_desc("D6", "FromDeriveInput", [f("z", skip=True)], [], forward=[], magic=["attrs", "ident"]),
         elem_desc("D10", "FromDeriveInput", [f("z", skip=True)], [], forward="all", magic=["attrs", "ident"]),       # forward-only receivers
